@@ -37,6 +37,7 @@ float    nondet_float(void) { return 1.0f; }
 #include CONT_API
 #include "clauses.hpp"
 #include "exec.hpp"
+#define RANGE_ITER_RUNTIME 1
 #include "ranges.hpp"
 #define REL_ALPHA alpha_real
 extern "C" void __vf_draw_mode(int) {}
@@ -262,7 +263,7 @@ static int run_state_mode(FILE* f)
         long pos = ftell(f); char w[16], w2[16];
         if (fscanf(f, " %15s %15s", w, w2) == 2 && !strcmp(w, "kind"))
         {
-            if (!strcmp(w2, "range")) { kind = 1; if (fscanf(f, " %d %d", &rmethod, &rn) != 2) return 2; }
+            if (!strcmp(w2, "range")) { kind = 1; if (fscanf(f, " %d %d", &rmethod, &rn) != 2) return 2; if (rmethod >= 24) { g_range_iter = true; rmethod -= 4; } }
             else kind = 2;
         }
         else fseek(f, pos, SEEK_SET);
